@@ -11,6 +11,7 @@ in the occupied slots.
 import CelerVerif.Lemmas.TrackInitReach
 import CelerVerif.Lemmas.TrackInitITC3
 import CelerVerif.Lemmas.TrackInitDrain2
+import CelerVerif.Lemmas.TrackInitPsi6
 import CelerVerif.Lemmas.TrackInitEnumTable
 
 namespace CelerVerif.TrackInit
@@ -232,6 +233,37 @@ theorem liveness_drain_partial {cfg : Cfg} (hslots : 0 < cfg.slots) {s : State}
     ∃ s', RunsTo s os s' ∧ Reachable cfg s' ∧ (result s').queued = 0 ∧ (result s').alive = 0 :=
   liveness_drain hslots h os hos hlen
 
+/-- progress, liveness part — conditional on the physics (hence `_partial` with respect to
+    the property; as a conditional statement it is complete).
+    Hypotheses on the outcome stream (`AgedRun`): every Stepper call succeeds, brings no new
+    primaries, and every track whose outcome is `alive` has taken fewer than `K` steps including
+    the current one (⇔ every track is killed within `K` of its own steps); the total number of
+    valid secondaries in the outcome lists is at most `S`.  Conclusion: from ANY reachable state,
+    for every slot count ≥ 1, capacity and track order, after at most
+        f(K, S, slots, queued) = K · (slots + queued + S)
+    Stepper calls `queued = alive = 0` (and no slot is occupied).
+    Proof: the potential  Σ_{occupied slots} max(1, K − steps) + K · queued  drops by at least
+    the number of tracks in flight in every call (≥ 1 unless already drained) and grows by at
+    most K per emitted secondary (`step_potential`).  That real physics kills every track after
+    finitely many steps with finitely many secondaries is outside the model. -/
+theorem liveness_bounded_partial {cfg : Cfg} (hslots : 1 ≤ cfg.slots) {K : Nat} (hK : 1 ≤ K)
+    {s s' : State} (h : Reachable cfg s) {os : List (List Outcome)}
+    (hrun : AgedRun cfg K s os s') (S : Nat) (hS : secsTotal os ≤ S)
+    (hlen : K * (cfg.slots + s.c.numInitializers + S) ≤ os.length) :
+    (result s').queued = 0 ∧ (result s').alive = 0 ∧ liveL s'.slots = [] :=
+  liveness_bounded hslots hK (inv_reachable h) hrun S hS hlen
+
+/-- the potential argument for a single Stepper call (no new primaries): the invariant is kept,
+    a drained loop stays drained, and otherwise the potential drops by at least one up to `K`
+    per secondary in the outcome list -/
+theorem potential_decreases {cfg : Cfg} (hslots : 1 ≤ cfg.slots) {K : Nat} (hK : 1 ≤ K)
+    {s s' : State} (h : Reachable cfg s) (o : List Outcome) (hlen : cfg.slots ≤ o.length)
+    (ho : OracleOk o) (hage : AgeOkL K (stepMid s).slots o) (hstep : stepAny [] o s = .ok s') :
+    (Psi K s = 0 → Psi K s' = 0) ∧
+    Psi K s' + (if Psi K s = 0 then 0 else 1) ≤ Psi K s + K * secsOf o :=
+  let r := step_potential hslots hK (inv_reachable h) o hlen ho hage hstep
+  ⟨r.2.2.1, r.2.2.2⟩
+
 /-- the enums of the model are the enums of the CURRENT source (tables regenerated from
     celeritas/Types.hh on every run): every `Status`/`Order` constructor is the C++ enumerator of
     the same name with the same value (= constructor order), `TrackStatus` has no other
@@ -331,6 +363,12 @@ example : ∀ s', exRun = .ok s' → Reachable exCfg s' ∧ Inv exCfg s' := by
       Reachable.init (by decide)
       (by intro x hx; simp at hx; rcases hx with rfl | rfl <;> simp) h
   exact ⟨hr, inv_reachable hr⟩
+
+-- an aged run exists: one call on the fresh state with K = 2
+example : ∃ s1, AgedRun exCfg 2 (State.init exCfg) [[⟨.alive, []⟩, ⟨.alive, []⟩]] s1 :=
+  ⟨_, AgedRun.cons (by decide) (by intro x hx; simp at hx; simp [hx])
+    (by simp [AgeOkL, stepMid, State.init, exCfg, extendFromPrimaries, initializeTracks, Slot.empty])
+    rfl AgedRun.nil⟩
 
 example : Inv exCfg (reset (State.init exCfg)) :=
   reset_reestablishes_invariant
